@@ -1058,6 +1058,25 @@ def msg_leave_traces():
                 t.line(3, "NOTICE %s#r :to %s after the return" % (pf, pf))
         t.meta = {"leave": how}
         out.append(t)
+    # members ask every kind of question (counts beyond what is stored, lists, masks) and then the channel is spoken to: a
+    # question never costs anybody a copy (seeded C01-h: a query handler that aborts leaves a ghost member behind)
+    t = Trace("msg-after-queries", Config())
+    for c, n in enumerate(["alice", "bob", "carol", "dave", "erin"]):
+        t.register(c, n)
+    for c in range(5):
+        t.line(c, "JOIN #r,#s")
+    t.line(3, "NICK dave2")
+    t.line(3, "NICK dave")
+    qs = ["WHOWAS dave2 5", "WHOWAS dave2", "WHOWAS dave2 0", "WHOWAS dave2 1", "WHOWAS nobody 3", "WHOWAS dave2 99999999999999999999", "ISON nobody alice zz bob",
+          "USERHOST alice nobody bob", "LIST #r,#none,#s", "NAMES #r,#none", "WHO #r", "WHO *a*", "WHOIS alice,nobody,bob", "WHOIS *", "LUSERS", "TIME", "VERSION",
+          "ADMIN", "INFO", "MOTD", "LINKS", "HELP", "HELP nothing", "STATS u", "MODE #r", "MODE #r +b", "TOPIC #r"]
+    for k, q in enumerate(qs):
+        t.line(1 + k % 4, q)
+    for sender in (0, 4):
+        t.line(sender, "PRIVMSG #r,#s,bob :after the questions")
+        t.line(sender, "NOTICE @#r,+#s :to the ranks")
+    t.meta = {"leave": "queries"}
+    out.append(t)
     return out
 
 
@@ -2201,6 +2220,40 @@ def c02_sweep(res):
             t.line(2, "WHOIS zed")
             t.meta = {"order": [list(x) for x in perm], "cfg": cfgname}
             traces.append(t)
+    # a connection that asked for a nickname but never completed registration (NICK only, or an open CAP negotiation, or a refused
+    # password) and whose nickname has meanwhile been registered by SOMEBODY ELSE sends the commands that act on "the sender's
+    # nick": whatever they are answered, the owner's user is untouched (seeded C02-h: OPER let through the gate)
+    for k2, hold in enumerate(["nick-only", "cap-open", "user-first-cap-open"]):
+        cfg = Config(operators=[dict(name="admin", password="operpass")])
+        t = Trace("c02-stranded-%d" % k2, cfg)
+        t.register(2, "carol")
+        t.line(2, "JOIN #c")
+        t.open(0)
+        if hold == "cap-open":
+            t.line(0, "CAP LS 302")
+            t.line(0, "NICK zed")
+            t.line(0, "USER g 8 * :G")
+        elif hold == "user-first-cap-open":
+            t.line(0, "CAP REQ :multi-prefix")
+            t.line(0, "USER g 8 * :G")
+            t.line(0, "NICK zed")
+        else:
+            t.line(0, "NICK zed")
+        t.open(1)
+        t.line(1, "NICK zed")
+        t.line(1, "USER owner 8 * :Owner")
+        t.line(1, "JOIN #c")
+        for l in ["OPER admin operpass", "MODE zed +iw", "AWAY :not me", "JOIN #x", "PART #c", "TOPIC #c :by the stranded one", "PRIVMSG #c :I am not zed",
+                  "KICK #c carol", "INVITE carol #c", "WALLOPS :hi", "KILL carol :x", "WHOIS zed", "NAMES #c", "LIST", "MODE zed", "OPER admin wrongpw",
+                  "NICK evil", "OPER admin operpass", "DIE"]:
+            t.line(0, l)
+            t.line(1, "MODE zed")
+        t.line(2, "WHOIS zed")
+        t.line(2, "LUSERS")
+        t.close(0)
+        t.line(2, "ISON zed evil")
+        t.meta = {"order": ["stranded", hold], "cfg": "oper"}
+        traces.append(t)
     # nicks that differ only in letter case, by one trailing character or by a prefix are different users: a rename onto the
     # other's exact nick is refused, each keeps acting as itself, and the end of one leaves the other alone (seeded C02-b, C11-c)
     for k2, (a, b) in enumerate([("alice", "Alice"), ("Alice", "alice"), ("bob", "BOB"), ("carol", "carol_"), ("dave", "dav"),
@@ -5727,13 +5780,15 @@ def check_C18(res):
                       found=False)
     # sequential semantics of the same commands (one at a time) against the model
     prof = {"weights": dict(JOIN=10, NICK=6, PART=4, PRIVMSG=6, MODE=3, QUIT=1, MISC=1), "max_conns": 6, "initial_conns": 4}
-    r = l2_campaign(res, "C18", 20 if res.tier == "quick" else 200, 40, prof)
+    # "keeps answering every live connection": connections beyond max_connections are turned away and every slot comes back -
+    # the slot histories of C19 (opens beyond the limit, closes, failed registrations) under the connection-count invariant
+    r = l2_campaign(res, "C18", 20 if res.tier == "quick" else 200, 40, prof, traces=c19_slot_traces(res), oracle=inv_oracle)
     res.coverage.update({
         "evaluations": sum(stats.values()) + r["steps"], "distinct_nontrivial": rounds * 5 + r["traces"],
         "rule": "burst scenarios against the real multi-threaded binary, with 4 bystanders keeping the state lock contended: per round %d connections claim one nickname at the same moment (exactly one 001, "
                 "the rest 433), all JOIN one new channel at once (all members, exactly one founder), all JOIN a +l 3 channel at once - in every second round each holding a pending invitation from the first member - (3 admitted, the rest 471), 8 of them pipeline 12 numbered PRIVMSG/PING pairs "
                 "(PONG tokens in order on each socket; per sender->receiver pair the sequence 0..11 in order), every connection answers PING afterwards, NAMES and WHO agree, (second round) 6 numbered channel messages sent while four connections keep OPER (password check under the write lock) busy and a member quits - each remaining member gets each exactly once; (fifth round) three idle senders message a user while four connections keep OPER password checks under the write lock busy - each message is delivered and WHOIS shows the sender's idle time reset; (fourth round) three connections ask WHO * listing eight invisible users while eight others switch AWAY on and off - every query and every change answered; and (first round) a client that pipelines 12000 LIST/NAMES/WHO queries over 80 channels without ever reading its socket must not keep others from being answered or registering; %d rounds; plus the scan of "
-                "lock acquisitions per handler against inventory/lock_shape.json; plus %d sequential histories against the model" % (N, rounds, r["traces"]),
+                "lock acquisitions per handler against inventory/lock_shape.json; plus %d sequential histories against the model, among them the max_connections slot histories with the connection-count invariant" % (N, rounds, r["traces"]),
         "traces_validated_against_impl": r["traces"], "burst": dict(stats), "lock_shape_functions": len(shape), "lock_shape_diff": sdiff, "burst_objections_rerun": burst_rerun,
         "samples": [{"round": 0, "claims": N, "channel": "#race0", "limit_channel": "#lim0"}],
         "l2": r["summary"]})
